@@ -14,3 +14,16 @@ TRUSTED_BASE_COMMON = [
 ]
 TRUSTED_BASE: dict[str, list[str]] = {}
 ASSUMPTIONS: dict[str, list[str]] = {}
+
+ENGINE: dict[str, str] = {}
+LEVEL_TEXT: dict[str, str] = {}
+LEVEL_NOTE: dict[str, str] = {}
+TECHNIQUE: dict[str, str] = {}
+NOT_APPLICABLE: dict[str, str] = {}
+ENGINES = [
+    {"name": "lean-model", "path": "lean/", "serves_properties": [],
+     "kind_free_text": "Lean 4 executable model (FtModel), theorems (FtProofs), audit, native driver"},
+]
+NOTES = ("Each check = Lean build + axiom audit of the property's theorems, correspondence of the "
+         "executable Lean model with /repo's working tree, and an independent oracle on the real code. "
+         "See DESIGN.md.")
